@@ -23,9 +23,9 @@ BASE = {
     "advs": [0, 1, 999999999, 1000000000, 1000000001, 2000000000, 5000000000],
     "noclear": [False, False, True], "file": [True, True, False],
     "gc": [[1800000000000, 300000000000], [2000000000, 1000000000], [1000000000, 0]],
-    "dlt": [3000000000, 1000000000, 600000000000],
+    "dlt": [3000000000, 1000000000, 600000000000, 500000000, 1500000000],
     "shards": [16, 1, 2, 0, 1000],
-    "probe_every": 3, "probe_around": False, "bad_key_pct": 15, "no_sess_pct": 2, "drain": True,
+    "probe_every": 3, "probe_around": False, "bad_key_pct": 15, "no_sess_pct": 2, "drain": True, "sticky_size_pct": 65,
 }
 
 
@@ -54,14 +54,14 @@ PROPS = {
                  noclear=[False, True], file=[True, True, True, False], bad_key_pct=10),
             "C08", ["C08", "HOLDS"], (300, 6000)),
     "C10": (prof(weights={"restart": 10, "adv": 14, "ren": 10, "unl": 14, "disc": 5}, probe_every=2, file=[True, True, True, False],
-                 dlt=[3000000000, 1000000000, 2000000000, 600000000000, 0], min_len=10, max_len=36),
+                 dlt=[3000000000, 1000000000, 2000000000, 600000000000, 0, 500000000, 1500000000, 999999999], min_len=10, max_len=36),
             "C10", ["C10", "HOLDS", "C04", "C08", "C01"], (300, 6000)),
     "C12": (prof(weights={"try": 30, "lock": 14, "ren": 12, "unl": 8, "adv": 6, "restart": 1},
                  names=[H("a"), H("ab"), H("b"), "", H("a"), H("x" * 300), "c3a9e4b8ad"],
                  sizes=[None, None, 1, 2, 3, 0, -1, -2147483648, 2147483647, 2],
                  lts=[None, None, 0, 1, 5, -1, -2147483648, 2147483647], wts=[None, 0, 1, 2, -1, -2147483648],
                  renew_lts=[1, 5, 0, -1, -2147483648, 2147483647], no_sess_pct=8, probe_every=4,
-                 shards=[16, 1, 2, 0, 1000, 3, 64]),
+                 shards=[16, 1, 2, 0, 1000, 3, 64], sticky_size_pct=30),
             "C12", ["C12"], (400, 8000)),
     "C18": (prof(weights={"ipcl": 10, "ipcu": 14, "try": 24, "unl": 8, "adv": 10, "restart": 3, "disc": 4}, probe_every=2,
                  sizes=[None, 1, 2, 3, 3], bad_key_pct=20),
